@@ -434,11 +434,12 @@ func (repo *Repository) ProcessHeader(ctx context.Context, header *wire.BlockHea
 				logger.String("new_work", longest.Last().AccumulatedWork.Text(16)),
 			}, "New longest header branch")
 
-			if err := repo.sendBranchUpdate(longest, repo.longest); err != nil {
+			// Switch before notifying so a failed notification can't leave a lighter tip reported.
+			previousLongest := repo.longest
+			repo.longest = longest
+			if err := repo.sendBranchUpdate(longest, previousLongest); err != nil {
 				return errors.Wrap(err, "send branch update")
 			}
-
-			repo.longest = longest
 		}
 
 		return nil
@@ -461,12 +462,14 @@ func (repo *Repository) ProcessHeader(ctx context.Context, header *wire.BlockHea
 				logger.String("new_work", longest.Last().AccumulatedWork.Text(16)),
 			}, "New longest header branch")
 
-			if err := repo.sendBranchUpdate(longest, repo.longest); err != nil {
+			// Switch before notifying so a failed notification can't leave a lighter tip reported.
+			previousLongest := repo.longest
+			repo.longest = longest
+			if err := repo.sendBranchUpdate(longest, previousLongest); err != nil {
 				return errors.Wrap(err, "send branch update")
 			}
 
 			headersSent = true
-			repo.longest = longest
 		}
 	}
 
